@@ -167,6 +167,9 @@ func b2u(b bool) uint64 {
 func (ev *evaluator) eval(e *expr) uint64 {
 	switch e.op {
 	case "var":
+		if e.w == 0 {
+			return ev.m[e.name] & 1
+		}
 		return ev.m[e.name] & mask(e.w)
 	case "const", "true", "false":
 		return e.c
